@@ -256,8 +256,19 @@ def _field_wrapper(tree):
     ip, isg = tests.index("self._default is not None"), tests.index("self.is_subgroup")
     if min(ip, isg) != 0:
         raise Unrecognised("FieldWrapper.default: an unknown test comes first")
-    _expect([unparse(x) for x in arms[ip][1]], ["default = self._default"], "FieldWrapper.default: pushed-down default")
-    _expect([unparse(x) for x in arms[isg][1]], ["default = self.subgroup_default"], "FieldWrapper.default: subgroup default")
+
+    def source_arm(body, want, what):
+        """the arm assigns `default` from the expected source; besides that only the `single_value` flag of the ALWAYS_MERGE
+        packaging (one value vs. one value per merged destination) may be set - irrelevant to which source wins"""
+        texts = [unparse(x) for x in body]
+        if not texts or texts[0] != want or any(t not in ("single_value = False", "single_value = True") for t in texts[1:]):
+            raise Unrecognised(f"FieldWrapper.default: {what}: expected {want!r} (+ single_value bookkeeping), got {texts}")
+
+    source_arm(arms[ip][1], "default = self._default", "pushed-down default")
+    source_arm(arms[isg][1], "default = self.subgroup_default", "subgroup default")
+    before = [unparse(x) for x in clean(props["default"].body)[: clean(props["default"].body).index(chain[0])]]
+    if any(t != "single_value = True" for t in before):
+        raise Unrecognised(f"FieldWrapper.default: statements before the decision chain: {before}")
     preset_first = ip < isg
     rq = _texts(props["required"].body)
     if rq[:2] != ["if self._required is not None:\n    return self._required",
